@@ -88,6 +88,15 @@ SPECS = {
         'covers': 'decompress_destripe_cbin.my_function: start batch, seek positions, the while-loop of batches with its kept rows, '
                   'stop rule and padding (sequence of file events), CHUNK_SIZE',
     },
+    'C09': {
+        'items': [
+            {'name': 'np_version', 'module': 'spikeglx.py', 'function': '_get_neuropixel_version_from_meta', 'kind': 'fn',
+             'option_return': True, 'value': 'Option String', 'optional': {'md_imDatPrb_type': 'md_has_imDatPrb_type'},
+             'params': ['md_has_typeEnabled', 'md_has_imDatPrb_type', 'md_imDatPrb_type', 'md_has_imDatPrb_port', 'md_has_imDatPrb_slot']},
+        ],
+        'theorems': ['IblVerif.Tie.C09.version_eq_int', 'IblVerif.Tie.C09.version_eq_absent'],
+        'covers': '_get_neuropixel_version_from_meta (probe-type decision table; integer or absent imDatPrb_type)',
+    },
     'C11': {
         'items': [
             {'name': 'online_ns', 'module': 'spikeglx.py', 'function': 'OnlineReader.ns', 'kind': 'fn',
